@@ -555,6 +555,13 @@ func run(t0 time.Time) int {
 					}
 				}
 			}
+			if o.Res.Status != "sat" && o.Res.Status != "unsat" && *flagTier != "thorough" {
+				// last resort before an obligation is reported: once more with three times the budget, so that a
+				// loaded machine does not turn a slow proof into an alarm
+				if r, all := solveFile(file, 3*budget, lambda); r.Status == "unsat" || r.Status == "sat" {
+					o.Res, o.All = r, append(o.All, all...)
+				}
+			}
 			if o.Res.Status == "sat" {
 				o.Model = parseModel(o.Res.Model)
 			}
